@@ -228,7 +228,10 @@ TrIsValid == IsOp("is_valid") /\ KeepD /\ KeepE
             /\ (X!MustReject(E.y, E.m, E.d, E.hh, E.mi, E.ss, E.ns) => E.res.v = FALSE)
 
 (* Gregorian fields in scale E.to; the re-expression of the register is inferred *)
-ConvCands(ts2) == {X!Ep(ts2, x) : x \in X!ConvSet(e, ts2)}
+(* (for a register held in a dynamical scale: the closed-form instant and both ends of its tolerance) *)
+ConvCands(ts2) == IF e.ts \in X!Dynamic /\ ts2 \in X!Uniform
+                  THEN {X!Ep(ts2, B!Sub(B!Add(X!InstantC(e), B!FromInt(dlt)), RefR[ts2])) : dlt \in {-30, 0, 30}}
+                  ELSE {X!Ep(ts2, x) : x \in X!ConvSet(e, ts2)}
 TrToGreg == IsOp("to_greg") /\ KeepD /\ Has(E.res, "v") /\
             \E rc \in ConvCands(E.to) : X!EToGreg(E.to, rc) /\ eout'[2] = E.res.v
 TrWeekday == IsOp("weekday") /\ KeepD /\ Has(E.res, "v") /\
